@@ -42,7 +42,15 @@ func runSolver(sp solverSpec, timeoutS int, file string) solveResult {
 	err := cmd.Run()
 	secs := time.Since(start).Seconds()
 	text := out.String()
-	first := strings.TrimSpace(strings.SplitN(text, "\n", 2)[0])
+	first := ""
+	for _, line := range strings.Split(text, "\n") {
+		line = strings.TrimSpace(line)
+		if line == "" || strings.HasPrefix(line, "WARNING") || strings.HasPrefix(line, "(warning") {
+			continue
+		}
+		first = line
+		break
+	}
 	switch first {
 	case "unsat", "sat", "unknown":
 		return solveResult{first, sp.name, text, secs}
